@@ -89,6 +89,13 @@ func events(in []byte, before ...string) (evs []lex.Ev, msg string) {
 		before = before[1:]
 	}
 	d := libjson.New("doc", in)
+	// what a consumer does with the token it was handed is its own business: appending to it (to
+	// join tokens, to terminate them) must not reach the text the events are read from
+	scribble := func(v []byte) {
+		if len(v) > 0 {
+			_ = append(v, ';', '0')
+		}
+	}
 	conv := func(typ string, begin, end int, value func() []byte) (lex.Ev, string) {
 		e := lex.Ev{Type: typ, Begin: begin, End: end}
 		if e.Begin >= 0 && e.End < len(in) && e.Begin <= e.End {
@@ -123,6 +130,7 @@ func events(in []byte, before ...string) (evs []lex.Ev, msg string) {
 				if m != "" {
 					return evs, m
 				}
+				scribble(l.Value())
 				evs = append(evs, e)
 			}
 		}
@@ -143,6 +151,7 @@ func events(in []byte, before ...string) (evs []lex.Ev, msg string) {
 		if m != "" {
 			return evs, m
 		}
+		scribble(l.Value())
 		evs = append(evs, e)
 		if i > 10*len(in)+100 {
 			return evs, "event stream does not terminate"
